@@ -163,3 +163,99 @@ def all_bytes_upto(n):
         for a in range(256):
             for b in range(256):
                 yield bytes([a, b])
+
+
+# ---- what a value is supposed to denote (independent of the library and of the Coq model) ----
+import math as _math
+import re as _re
+import struct as _struct
+from fractions import Fraction as _Fraction
+
+_NR = _re.compile(r"^[+-]?(\d+\.?\d*|\.\d+)([eE][+-]?\d+)?$")
+
+
+def real_expected(content):
+    """X.690 8.5 reading of REAL content octets -> float, or None when the octets are not a legal/supported REAL
+    (not judged by the C02 oracle)."""
+    if len(content) == 0:
+        return 0.0
+    f = content[0]
+    if f & 0x80:
+        if f & 3 == 3:
+            if len(content) < 2:
+                return None
+            n, start = content[1], 2
+        else:
+            n, start = (f & 3) + 1, 1
+        if n == 0 or len(content) < start + n or len(content) - start - n > 16 or len(content) - start - n == 0:
+            return None
+        e = int.from_bytes(content[start:start + n], "big", signed=True)
+        mant = int.from_bytes(content[start + n:], "big")
+        bb = (f >> 4) & 3
+        if bb == 3:
+            return None
+        k = {0: 1, 1: 3, 2: 4}[bb]
+        scale = (f >> 2) & 3
+        p = k * e + scale
+        if abs(p) > 3000:
+            return None
+        try:
+            v = float(_Fraction(mant) * (_Fraction(2) ** p))
+        except OverflowError:
+            v = _math.inf
+        return -v if f & 0x40 else v
+    if f & 0xC0 == 0:
+        try:
+            t = bytes(content[1:]).decode("ascii")
+        except UnicodeDecodeError:
+            return None
+        form = f & 0x3F
+        if form == 1 and _re.match(r"^[+-]?\d+$", t) and -2 ** 31 <= int(t) < 2 ** 31:
+            return float(int(t))
+        if form in (2, 3) and _NR.match(t):
+            return float(t)
+        return None
+    if len(content) == 1:
+        return {0x40: _math.inf, 0x41: -_math.inf, 0x42: _math.nan, 0x43: -0.0}.get(f)
+    return None
+
+
+def f64bits(x):
+    return _struct.unpack(">Q", _struct.pack(">d", x))[0]
+
+
+def expected_render(kind, v):
+    """Canonical rendering (apilib.render_pyvalue format) of the documented Python value; None = not judged."""
+    if kind in ("int", "c32", "g32", "tt", "u32", "c64"):
+        return "int:%d" % v
+    if kind in ("os", "op", "od"):
+        return "bytes:" + hx(v)
+    if kind == "ip":
+        return "str:" + hx(".".join(str(x) for x in v).encode())
+    if kind == "oid":
+        return "str:" + hx(ber.oid_text(v).encode())
+    if kind == "bool":
+        return "bool:%d" % (1 if v else 0)
+    if kind == "real":
+        x = real_expected(v)
+        if x is None:
+            return None
+        if _math.isnan(x):
+            return "float:nan"
+        return "float:%016x" % f64bits(x)
+    return None
+
+
+def float_close(a, b):
+    """Compare two `float:<bits>` renderings; subnormal results may differ by one ulp (scaling in several steps)."""
+    if a == b:
+        return True
+    if not (a.startswith("float:") and b.startswith("float:")):
+        return False
+    if "nan" in (a[6:], b[6:]):
+        xa = a[6:] == "nan" or _math.isnan(_struct.unpack(">d", bytes.fromhex(a[6:]))[0])
+        xb = b[6:] == "nan" or _math.isnan(_struct.unpack(">d", bytes.fromhex(b[6:]))[0])
+        return xa and xb
+    ia, ib = int(a[6:], 16), int(b[6:], 16)
+    xa = _struct.unpack(">d", bytes.fromhex(a[6:]))[0]
+    return abs(ia - ib) <= 1 and abs(xa) < 2.3e-308
